@@ -9,12 +9,13 @@ FIELDS = {}        # attribute name or (Class, attribute) -> kind
 THEORIES = {}      # name -> fn(eng, st) -> list of z3 axioms
 SPECFNS = {}       # name -> fn(eng, st, *args) -> V
 CLASS_INV = {}     # class name -> list of clause strings over 'self'
+FIELD_VIEWS = {}   # theory name -> {attribute: fn(eng, st, ref term) -> V}  (sound under the theory's axioms)
 
 
 class Contract:
     def __init__(self, qual, kind='function', params=None, returns='none', requires=(), ensures=(), raises=(),
                  loops=None, inline=(), theories=(), refines=None, modifies=(), yields=None, decreases=None,
-                 props=(), eq_on_ref=None, setter=False, closure_of=None, free=None, trusted=False, note='',
+                 props=(), eq_on_ref=None, setter=False, joins=None, closure_of=None, free=None, trusted=False, note='',
                  exc_ensures=None, ghost_out=None, fresh_result=False, globals_=None, replay=None):
         self.qual = qual
         self.kind = kind              # function | method | property | generator
@@ -24,6 +25,7 @@ class Contract:
         self.ensures = list(ensures)
         self.raises = list(raises)    # exception class names allowed to escape
         self.loops = dict(loops or {})
+        self.joins = dict(joins or {})   # ordinal of ''.join(<genexp>) -> dict(invariant=[...]) over _acc, _i, _n
         self.inline = list(inline)
         self.theories = list(theories)
         self.refines = refines
